@@ -202,6 +202,10 @@ func (dts *DataTypeService) findMetadata(key []byte, dt dataType) (*metadata, er
 	if err == bitcask.ErrKeyNotFound {
 		exist = false
 	} else {
+		// 先根据类型标识判断, String 类型的数据部分是任意字节, 不能按容器元数据解码
+		if len(metaBuf) == 0 || metaBuf[0] != dt {
+			return nil, ErrWrongTypeOperation
+		}
 		// key 存在, 进行解码
 		meta = decodeMetadata(metaBuf)
 		// 判断数据类型是否正确
